@@ -30,7 +30,8 @@ RULE = ("periodic structures from findlib.planted_structure: 0-3 planted rigid c
         "hugging faces / edges / corners ({0,.01,.5,.99,.999}); decoys: mirror images, near misses (one atom moved by 3-5 "
         "atol), lone same-element atoms, rigid copies with ONE element replaced or two elements exchanged; hints none / "
         "complete triples / partial (incl. index 0, orientation point clearly off the axis); atol in {1e-4,2e-4,5e-4,2e-3,"
-        ".02,.05,.1,.2,.3} and the edge 0; copies with ONE bond 2.5-8 atol too long; keywords explicit or left at their "
+        ".02,.05,.1,.2,.3} and the edge 0; copies with ONE bond 2.5-8 atol too long; patterns with two same-element atoms between atol and 2 atol apart (H-H 0.75 at "
+        "atol .4-.6, F-F 0.375 at .2/.3) with sites holding ONE atom at the pair's midpoint; keywords explicit or left at their "
         "defaults, return_positions_and_quats True/False, verbose, numpy-integer hints; sequences of 2-3 calls on shared "
         "Atoms objects (two tolerances / same-diagonal ortho+triclinic cells / two patterns / several structures) each "
         "compared with a fresh evaluation. "
@@ -38,7 +39,7 @@ RULE = ("periodic structures from findlib.planted_structure: 0-3 planted rigid c
         "Non-trivial = the search reported at least one match of a pattern with >= 2 atoms AND (a planted copy straddles "
         "a cell face OR the structure contains a decoy with the pattern's geometry).")
 
-GEOM_DECOYS = ("mirror", "nearmiss", "wrongelem", "permuted", "stretch")
+GEOM_DECOYS = ("mirror", "nearmiss", "wrongelem", "permuted", "stretch", "merged")
 
 
 # ------------------------------------------------------------------ the property, on the real result
@@ -469,6 +470,8 @@ def grid_inp(seed, task):
     pname, ck, pose, fr = task
     rng = random.Random("c01-grid-%s-%s" % (seed, task))
     atol = rng.choice(g.ATOLS + g.ATOLS + g.TINY_ATOLS + [0.3])
+    if pname in g.CLOSE_PAIR and rng.random() < 0.7:
+        atol = rng.choice(g.CLOSE_PAIR[pname])      # the close same-element pair is between atol and 2·atol apart
     case = g.planted_at(rng, pname, ck, pose, fr, atol)
     return inp_of(case, atol, g.valid_hints(rng, case["pattern"]) if rng.random() < 0.3 else (None, None, None),
                   rng.randrange(1 << 30))
